@@ -11,6 +11,7 @@
 package main
 
 import (
+	"bytes"
 	"crypto/sha256"
 	"encoding/binary"
 	"encoding/hex"
@@ -283,6 +284,22 @@ func runCase(st rep.Step, verdicts, muts map[string]int, samples *[]interface{})
 		ParCoinBaseMerkle: parBranch,
 		ParMerkleIndex:    rep.Int(proof, "parIndex"),
 		ParBlockHeader:    auxpow.BtcHeader{Version: 0x20000000, MerkleRoot: parRoot, Timestamp: 1600000000, Bits: 0x1d00ffff},
+	}
+
+	if mut == "parindex_wire_allones" {
+		// the proof as a peer sends it: index field 0xffffffff, decoded by the node itself
+		ap.ParMerkleIndex = 0xffffffff
+		buf := new(bytes.Buffer)
+		if err := ap.Serialize(buf); err != nil {
+			rep.Mismatch("serialize proof: "+err.Error(), a)
+			return
+		}
+		dec := &auxpow.AuxPow{}
+		if err := dec.Deserialize(buf); err != nil {
+			rep.Mismatch("deserialize proof: "+err.Error(), a)
+			return
+		}
+		ap = dec
 	}
 
 	// slot derivation
